@@ -5,7 +5,7 @@
 From Coq Require Import List Arith Lia Bool Ring.
 From TLV Require Import Base.Shape Base.PyList Base.Tensor Base.BigSum Base.Ops Model.Base Model.Factorized
   Proofs.BaseProofs Proofs.FactorizedProofs Proofs.FactorizedProofs3 Proofs.FactorizedProofs4 Proofs.FactorizedProofs5
-  Proofs.FactorizedProofs9 Model.Transforms Proofs.TransformsProofs.
+  Proofs.FactorizedProofs9 Proofs.FactorizedProofs21 Model.Transforms Proofs.TransformsProofs.
 Import ListNotations.
 
 Section Link.
@@ -102,7 +102,7 @@ Theorem tt_to_tensor_link cs ns : cs <> [] -> tt_cores F 1 cs ns 1 -> 0 < prod n
   exists t, Factorized.tt_to_tensor Op cs = Ok t /\ shape t = shape (Transforms.tt_to_tensor Op cs) /\
     forall idx, inb (shape t) idx -> get fz t idx = tt_entry Op cs idx.
 Proof.
-  intros Hne Hc Hp. destruct (tt_to_tensor_spec F Op Rth cs ns Hne Hc Hp) as (t & Ht & Hst & Hg).
+  intros Hne Hc Hp. destruct (tt_to_tensor_spec_v F Op Rth cs ns Hne Hc Hp) as (t & Ht & Hst & Hg).
   exists t. split; [exact Ht|]. split; [rewrite Hst; cbn [Transforms.tt_to_tensor shape tabulate]; symmetry; eapply tt_cores_shape; eauto|].
   intros idx Hi. rewrite Hst in Hi. rewrite (Hg idx Hi). unfold tt_entry. symmetry. eapply tt_chain_link; eauto.
 Qed.
@@ -119,7 +119,7 @@ Theorem tr_to_tensor_link (fa : tensor F) mid (fl : tensor F) n0 nsm nL r0 rL :
     shape t = shape (Transforms.tr_to_tensor Op (fa :: mid ++ [fl])) /\
     forall idx, inb (shape t) idx -> get fz t idx = tr_entry Op (fa :: mid ++ [fl]) idx.
 Proof.
-  intros Hc Hfl Hr0 Hp. destruct (tr_to_tensor_spec F Op Rth fa mid fl n0 nsm nL r0 rL Hc Hfl Hr0 Hp) as (t & Ht & Hst & Hg).
+  intros Hc Hfl Hr0 Hp. destruct (tr_to_tensor_spec_v F Op Rth fa mid fl n0 nsm nL r0 rL Hc Hfl Hr0 Hp) as (t & Ht & Hst & Hg).
   pose proof (tt_cores_snoc _ _ _ _ fl nL r0 Hc Hfl Hr0) as Hall. cbn [app] in Hall.
   exists t. split; [exact Ht|]. split.
   - rewrite Hst. cbn [Transforms.tr_to_tensor shape tabulate]. symmetry. exact (tt_cores_shape _ _ _ _ Hall).
